@@ -15,6 +15,21 @@
 //!  * wave 4: validation helpers / constructors on vectors of length <= 4 whose neighbours are one rounding step apart
 //!    (0.3 / 0.1+0.2, 1 / 1+2^-52, -1 / -1+2^-53, 0 / 5e-324), push chains of length 4, and shift_by / scaled_by with
 //!    non-finite parameters or overflowing abscissae (valid result or loud failure, never a silently invalid series).
+//!  * wave 5 (notes/w5_audit_C17.md): every remaining public function of DiscreteDomain / vec_f64 / Series1 named by the
+//!    statement's anchors: index_of / bounds / accessors on domains built by EVERY constructor (try_from, push chain,
+//!    linear, linear_space; empty, 1..4 values with repeats, 33 / 100 / 1000 / 4097 values at 0, 1e6, +-1e8 and on a 2^-30
+//!    extent), probes bit-equal to a knot, one ulp either side, mid / quarter points, +-0.0, +-inf; push sequences with
+//!    refused pushes followed by reads; has_nan / are_all_finite / ascending / descending / try_from / try_new on vectors of
+//!    5..4097 values with ONE fault (NaN, +-inf, one rounding step down / up, a repeat) at every position (n <= 129) or
+//!    around 0 / 32 / 64 / 1000 / 1024 / 4096 / the end; sort helpers; linear / linear_space over 15 bounds^2 (far, tiny,
+//!    inexact, +-0.0) x n in {2, 3, 10, 33, 100, 1000, 4097}; on the small family: index_of_x_after, is_ordered, interval,
+//!    xys, as_points, fs / from_sampled beyond the series, derived series (abs, scaled_y, + / -, dydx, savitzky_golay),
+//!    no-op updates, whole-domain slice, reversed Interval, slice of a slice, split twice, middle_reiemann_areas,
+//!    bounds_at_y0, plateau_at_maxima; "long series": 6 (origin, spacing) pairs x 4 sizes x 4 layouts (uniform, growing
+//!    gaps, every 7th abscissa repeated, one gap of 2001 spacings) x 2 ordinate patterns, every clause of the small family
+//!    evaluated with a partition_point oracle (self-tested against the scan), resampling to 2..4097 points, resampling
+//!    twice, 13 levels incl. knot ordinates +- one ulp and +-0.0, scale / shift round trips, a mirror-shift-slice-resample
+//!    chain, NaN ordinates at the first / last / every third / every point.
 //! Oracles are brute force: the piecewise-linear graph is evaluated segment by segment; at a repeated abscissa the graph
 //! is the SET of ordinates stored there.  Outside the stated preconditions of props/C17.json (empty series, n < 2,
 //! NaN probe, slice entirely left of the domain) nothing is evaluated.
@@ -325,6 +340,11 @@ fn check_series(r: &mut Report, xs: &[f64], ys: &[f64]) {
 }
 
 fn check_resampled(r: &mut Report, s: &Series1, xs: &[f64], ys: &[f64], desc: &str, got: Option<Series1>, want_n: Option<usize>) {
+    check_resampled_with(r, s, xs, ys, desc, got, want_n, false)
+}
+/// `fast`: long parents (wave 5) - the graph oracle locates the segment with partition_point, and "evenly spaced" is
+/// measured against the step (not against the absolute floor of `close`, which hides everything on a 1e-9 extent)
+fn check_resampled_with(r: &mut Report, s: &Series1, xs: &[f64], ys: &[f64], desc: &str, got: Option<Series1>, want_n: Option<usize>, fast: bool) {
     let d = || desc.to_string();
     let n = xs.len();
     let Some(t) = got else { r.check(false, "resampled: returns (no panic)", d); return; };
@@ -338,10 +358,10 @@ fn check_resampled(r: &mut Report, s: &Series1, xs: &[f64], ys: &[f64], desc: &s
     // two clauses for the last point: it never lies beyond the domain (the clamp), and it is the end point exactly
     r.check(tx[tx.len() - 1] <= xs[n - 1] && tx.iter().all(|x| *x >= xs[0]), "resampled: no abscissa outside [x_min, x_max]", d);
     r.check(tx[tx.len() - 1] == xs[n - 1], "resampled: keeps the last end point exactly", d);
-    r.check((0..tx.len()).all(|k| !t.y[k].is_nan() && on_graph(xs, ys, tx[k], t.y[k])), "resampled: every point lies on the piecewise-linear graph (finite ordinates)", d);
+    r.check((0..tx.len()).all(|k| !t.y[k].is_nan() && if fast { on_graph_fast(xs, ys, tx[k], t.y[k]) } else { on_graph(xs, ys, tx[k], t.y[k]) }), "resampled: every point lies on the piecewise-linear graph (finite ordinates)", d);
     if tx.len() >= 2 {
         let step = (xs[n - 1] - xs[0]) / ((tx.len() - 1) as f64);
-        r.check((0..tx.len()).all(|k| close(tx[k], xs[0] + (k as f64) * step)), "resampled: evenly spaced", d);
+        r.check((0..tx.len()).all(|k| if fast { near(tx[k], xs[0] + (k as f64) * step, step) } else { close(tx[k], xs[0] + (k as f64) * step) }), "resampled: evenly spaced", d);
     }
     let _ = s;
 }
@@ -482,8 +502,700 @@ fn check_nonfinite_derivations(r: &mut Report) {
     }
 }
 
+// ================================================================================================ wave 5 additions
+// Parameter-space audit (notes/w5_audit_C17.md): sizes past 32 / 64 / 1000 / 4096, abscissae far from the origin
+// (1e6, +-1e8) and tiny extents (2^-30 ~ 1e-9), probes bit-equal to a knot and one ulp either side, +-0.0, repeated
+// abscissae, a single gap > 1000x the spacing, bounds in either order, every constructor as the source of the state,
+// rejected push followed by reads, the same operation twice, chains.  All data are dyadic so the arithmetic of the
+// oracles is exact or within a few rounding steps; abscissae are compared with `near` (1e-9 of the local spacing plus
+// 8 rounding steps), areas against the sum of the absolute strip areas.
+fn ulp_dn(x: f64) -> f64 { -ulp_up(-x) }
+fn bits_eq(a: &[f64], b: &[f64]) -> bool { a.len() == b.len() && a.iter().zip(b).all(|(p, q)| p.to_bits() == q.to_bits()) }
+fn near(a: f64, b: f64, h: f64) -> bool { (a - b).abs() <= 1e-9 * h.abs() + 8.0 * f64::EPSILON * a.abs().max(b.abs()) }
+
+/// ORACLE for long series: the same set-valued graph as `graph_vals`, the segment located with partition_point
+/// (cross-checked against the scan on every probe of the small exhaustive family: "oracle self-test")
+fn graph_vals_fast(xs: &[f64], ys: &[f64], x: f64) -> Vec<f64> {
+    let n = xs.len();
+    let mut out = vec![];
+    if n == 0 || !(x >= xs[0] && x <= xs[n - 1]) { return out; }
+    let lo = xs.partition_point(|v| *v < x);
+    let hi = xs.partition_point(|v| *v <= x);
+    if lo < hi { for k in lo..hi { out.push(ys[k]); } }
+    else { let j = lo - 1; out.push(ys[j] + (ys[j + 1] - ys[j]) * ((x - xs[j]) / (xs[j + 1] - xs[j]))); }
+    out
+}
+fn on_graph_fast(xs: &[f64], ys: &[f64], x: f64, v: f64) -> bool {
+    let g = graph_vals_fast(xs, ys, x);
+    if g.is_empty() { v.is_nan() } else { g.iter().any(|&w| same_val(v, w)) }
+}
+/// ORACLE index_of: None outside [first, last] (or empty); else a knot equal to the value or the lower knot of the strictly bracketing pair
+fn index_of_ok(v: &[f64], x: f64, got: Option<usize>) -> bool {
+    let n = v.len();
+    if n == 0 || x < v[0] || x > v[n - 1] { return got.is_none(); }
+    match got { None => false, Some(i) => i < n && (v[i] == x || (i + 1 < n && v[i] < x && x < v[i + 1])) }
+}
+/// ORACLE index_of_x_after: a knot equal to x when there is one, else the first knot above x (the length when there is none)
+fn index_after_ok(v: &[f64], x: f64, i: usize) -> bool {
+    let n = v.len();
+    if i > n { return false; }
+    if v.iter().any(|w| *w == x) { return i < n && v[i] == x; }
+    v[..i].iter().all(|w| *w < x) && v[i..].iter().all(|w| *w > x)
+}
+fn pick_indices(n: usize) -> Vec<usize> {
+    if n <= 130 { return (0..n).collect(); }
+    let mut q: Vec<usize> = vec![0, 1, 2, 31, 32, 33, 63, 64, 65, n / 2 - 1, n / 2, n / 2 + 1, 999, 1000, 1023, 1024, 1025, 4095, 4096, n - 3, n - 2, n - 1];
+    let mut k = 0; while k < n { q.push(k); k += 37; }
+    q.retain(|k| *k < n); q.sort(); q.dedup(); q
+}
+/// probes: -inf, +inf, +-0.0, and for the picked knots: the knot bit for bit, one ulp either side, the mid and quarter point of the next segment
+fn knot_probes(v: &[f64]) -> Vec<f64> {
+    let n = v.len();
+    let mut p = vec![f64::NEG_INFINITY, f64::INFINITY, 0.0, -0.0];
+    for &k in pick_indices(n).iter() {
+        p.push(v[k]); p.push(ulp_up(v[k])); p.push(ulp_dn(v[k]));
+        if k + 1 < n { p.push(v[k] + (v[k + 1] - v[k]) * 0.5); p.push(v[k] + (v[k + 1] - v[k]) * 0.25); }
+    }
+    p
+}
+
+fn check_domain_queries(r: &mut Report, v: &[f64], dom: &DiscreteDomain, how: &str) {
+    r.case();
+    let n = v.len();
+    let d = || format!("{} (n = {}, first = {:?}, last = {:?})", how, n, v.first(), v.last());
+    r.check(bits_eq(dom.values(), v), "domain accessors: values() are the stored values", d);
+    r.check(dom.len() == n && dom.is_empty() == (n == 0), "domain accessors: len / is_empty agree with values()", d);
+    r.check(dom.iter().count() == n && dom.iter().zip(v).all(|(a, b)| a.to_bits() == b.to_bits()), "domain accessors: iter() yields the stored values in order", d);
+    let sl: &[f64] = dom;
+    r.check(bits_eq(sl, v), "domain accessors: the slice view (Deref) is the stored values", d);
+    match guarded(|| dom.bounds()) {
+        None => r.check(false, "bounds: returns (no panic)", d),
+        Some(b) => {
+            r.check(b.is_none() == (n == 0), "bounds: None exactly for the empty domain", d);
+            if let (Some(b), true) = (b, n > 0) { r.check(b.min == v[0] && b.max == v[n - 1], "bounds: from the first to the last value", d); }
+        }
+    }
+    if n > 0 { r.check(guarded(|| dom.bounds_unchecked()).map_or(false, |b| b.min == v[0] && b.max == v[n - 1]), "bounds: from the first to the last value", d); }
+    for &x in knot_probes(v).iter() {
+        let dd = || format!("{} index_of({:?})", d(), x);
+        match guarded(|| dom.index_of(x)) {
+            None => r.check(false, "index_of: returns (no panic)", dd),
+            Some(got) => {
+                let outside = n == 0 || x < v[0] || x > v[n - 1];
+                r.check(got.is_none() == outside, "index_of: None exactly outside the bounds of the domain (or on an empty domain)", dd);
+                r.check(index_of_ok(v, x, got), "index_of: the index of a knot equal to the value, else of the lower knot of the bracketing pair", dd);
+            }
+        }
+    }
+}
+
+/// every constructor as the source of the state: try_from, push chain, linear, linear_space; empty / 1 / 2 elements, repeats, long, far, tiny
+fn check_domains_w5(r: &mut Report) {
+    check_domain_queries(r, &[], &DiscreteDomain::default(), "DiscreteDomain::default()");
+    for len in 1..=4usize {
+        ascending_tuples(&XS, len, &mut |v| {
+            if let Ok(dom) = DiscreteDomain::try_from(v.to_vec()) { check_domain_queries(r, v, &dom, &format!("try_from({:?})", v)); }
+            let mut dom = DiscreteDomain::default();
+            if v.iter().all(|x| dom.push(*x).is_ok()) { check_domain_queries(r, v, &dom, &format!("default() then push each of {:?}", v)); }
+            else { r.check(false, "push: Ok exactly for a finite value not below the last one", || format!("{:?}", v)); }
+        });
+    }
+    for &(base, h) in [(0.0, 0.5), (1e6, 0.25), (1e8, 0.015625), (-1e8, 0.5), (0.0, 9.313225746154785e-10), (1.0, 9.313225746154785e-10)].iter() {
+        for &n in [33usize, 100, 1000, 4097].iter() {
+            // strictly increasing, and with every 7th value repeated
+            for rep in [false, true] {
+                let v: Vec<f64> = (0..n).map(|k| base + h * ((if rep { k - k / 7 } else { k }) as f64)).collect();
+                let how = format!("values {:?} + {:?} * k{}", base, h, if rep { " (every 7th repeated)" } else { "" });
+                match DiscreteDomain::try_from(v.clone()) { Ok(dom) => check_domain_queries(r, &v, &dom, &format!("try_from: {}", how)), Err(_) => r.check(false, "try_from: finite ascending values are accepted", || how.clone()) }
+                let mut dom = DiscreteDomain::default();
+                if v.iter().all(|x| dom.push(*x).is_ok()) { check_domain_queries(r, &v, &dom, &format!("push chain: {}", how)); }
+                else { r.check(false, "push: Ok exactly for a finite value not below the last one", || how.clone()); }
+            }
+            for which in 0..2 {
+                let (a, b) = (base, base + h * ((n - 1) as f64));
+                let Some(dom) = guarded(|| if which == 0 { DiscreteDomain::linear(b, a, n) } else { linear_space(b, a, n) }) else { continue; };
+                let v = dom.values().to_vec();
+                if finite_ascending(&v) { check_domain_queries(r, &v, &dom, &format!("{}({:?}, {:?}, {})", if which == 0 { "linear" } else { "linear_space" }, b, a, n)); }
+            }
+        }
+    }
+}
+
+/// push sequences on a state produced by each constructor: rejected push followed by reads, the same push twice, first push onto the empty domain
+fn check_push_sequences(r: &mut Report) {
+    let firsts = [-0.0, 0.0, 5e-324, -5e-324, f64::MAX, f64::MIN, 1e8, -1e8];
+    for &f in firsts.iter() { for &bad in [f64::NAN, f64::INFINITY, f64::NEG_INFINITY].iter() {
+        r.case();
+        let d = || format!("default(); push({:?}); push({:?}); push({:?})", bad, f, bad);
+        let mut dom = DiscreteDomain::default();
+        r.check(guarded(|| dom.push(bad).is_err()) == Some(true) && dom.values().is_empty() && dom.bounds().is_none() && dom.index_of(0.0).is_none(), "push: appends the accepted value, leaves the domain unchanged on error", d);
+        r.check(guarded(|| dom.push(f).is_ok()) == Some(true) && bits_eq(dom.values(), &[f]), "push: Ok exactly for a finite value not below the last one", d);
+        r.check(guarded(|| dom.push(bad).is_err()) == Some(true) && bits_eq(dom.values(), &[f]), "push: appends the accepted value, leaves the domain unchanged on error", d);
+        check_domain_queries(r, &[f], &dom, &d());
+    } }
+    let starts: Vec<(String, Vec<f64>)> = vec![
+        ("try_from([1, 2, 2, 3.5])".into(), vec![1.0, 2.0, 2.0, 3.5]),
+        ("linear(3, 1, 5)".into(), DiscreteDomain::linear(3.0, 1.0, 5).values().to_vec()),
+        ("linear_space(-1e8, -1e8 + 1, 3)".into(), linear_space(-1e8, -1e8 + 1.0, 3).values().to_vec()),
+        ("1000 values 0.25 * k".into(), (0..1000).map(|k| 0.25 * k as f64).collect()),
+        ("4097 values 1 + 2^-30 * k".into(), (0..4097).map(|k| 1.0 + 9.313225746154785e-10 * k as f64).collect()),
+    ];
+    for (how, v0) in starts.iter() {
+        let Ok(mut dom) = DiscreteDomain::try_from(v0.clone()) else { r.check(false, "try_from: finite ascending values are accepted", || how.clone()); continue; };
+        let mut model = v0.clone();
+        let last = *v0.last().unwrap();
+        let first = v0[0];
+        // (value, expected Ok): one ulp below the last (refused), a value between first and last (refused), the last itself twice
+        // (accepted, a repeat), non-finite (refused, twice), one ulp above, the same refused value again, far above
+        let seq = [(ulp_dn(last), false), (first + (last - first) * 0.5, false), (first, first == last), (last, true), (last, true), (f64::NAN, false), (f64::NAN, false),
+                   (f64::INFINITY, false), (ulp_up(last), true), (last, false), (ulp_dn(last), false), (last + 1e9, true), (last + 1e9, true), (f64::NEG_INFINITY, false)];
+        for (step, &(v, want)) in seq.iter().enumerate() {
+            r.case();
+            let d = || format!("{} then push sequence {:?} (step {})", how, seq.iter().map(|s| s.0).collect::<Vec<_>>(), step);
+            let want = want && v.is_finite() && v >= *model.last().unwrap();
+            let Some(ok) = guarded(|| dom.push(v).is_ok()) else { r.check(false, "push: returns (no panic)", d); break; };
+            r.check(ok == want, "push: Ok exactly for a finite value not below the last one", d);
+            if want { model.push(v); }
+            r.check(finite_ascending(dom.values()), "push: the domain stays finite and ascending", d);
+            let same = bits_eq(dom.values(), &model);
+            r.check(same, "push: appends the accepted value, leaves the domain unchanged on error", d);
+            if !same { break; }
+            // reads after the (possibly refused) push see exactly the model
+            r.check(dom.len() == model.len() && guarded(|| dom.bounds()).map_or(false, |b| b.map_or(false, |b| b.min == model[0] && b.max == *model.last().unwrap())), "bounds: from the first to the last value", d);
+            for x in [v, last, ulp_dn(last), first] { if !x.is_nan() {
+                r.check(guarded(|| dom.index_of(x)).map_or(false, |g| index_of_ok(&model, x, g)), "index_of: the index of a knot equal to the value, else of the lower knot of the bracketing pair", || format!("{} index_of({:?})", d(), x));
+            } }
+        }
+    }
+}
+
+/// validation helpers / constructors on LONG vectors with a single fault at every position (n <= 129) or at the positions
+/// around 0, 32, 64, 1000, 1024, 4096, the middle and the end: NaN, +inf, -inf, a dip / bump of one rounding step, a repeat
+fn check_long_vectors(r: &mut Report) {
+    use crate::common::vec_f64::{are_all_finite, are_in_ascending_order, are_in_descending_order, has_nan};
+    let eval = |r: &mut Report, v: &[f64], what: &str| {
+        r.case();
+        let n = v.len();
+        let fin = (0..n).all(|k| v[k].is_finite());
+        let nan = (0..n).any(|k| v[k].is_nan());
+        let asc = (1..n).all(|k| v[k - 1] <= v[k]);
+        let desc = (1..n).all(|k| v[k - 1] >= v[k]);
+        let d = || format!("{} (n = {})", what, n);
+        r.check(guarded(|| has_nan(v)) == Some(nan), "vec_f64::has_nan: true exactly when some value is NaN", d);
+        r.check(guarded(|| are_all_finite(v)) == Some(fin), "vec_f64::are_all_finite: true exactly when no value is NaN or infinite", d);
+        r.check(guarded(|| are_in_ascending_order(v)) == Some(asc), "vec_f64::are_in_ascending_order: true exactly when w[0] <= w[1] for every neighbouring pair (no slack, not even one rounding step)", d);
+        r.check(guarded(|| are_in_descending_order(v)) == Some(desc), "vec_f64::are_in_descending_order: true exactly when w[0] >= w[1] for every neighbouring pair (no slack, not even one rounding step)", d);
+        let valid = fin && asc;
+        match guarded(|| DiscreteDomain::try_from(v.to_vec())) {
+            None => r.check(false, "try_from: returns (no panic)", d),
+            Some(Ok(dom)) => { r.check(valid, "try_from: Ok only for finite ascending values (never a silently invalid domain)", d); r.check(bits_eq(dom.values(), v), "try_from: the accepted domain holds exactly the given values", d); }
+            Some(Err(_)) => r.check(!valid, "try_from: finite ascending values are accepted", d),
+        }
+        for ylen in [n, n + 1, n.saturating_sub(1)] {
+            let y = vec![1.0; ylen];
+            match guarded(|| Series1::try_new(v.to_vec(), y)) {
+                None => r.check(false, "try_new: returns (no panic)", d),
+                Some(Ok(s)) => { r.check(valid && ylen == n, "try_new: Ok only for finite ascending abscissae with a matching number of ordinates", d); r.check(bits_eq(s.x.values(), v) && s.y.len() == ylen, "try_new: the series holds exactly the given vectors", d); }
+                Some(Err(_)) => r.check(!(valid && ylen == n), "try_new: valid input is accepted", d),
+            }
+        }
+    };
+    // has_nan on the small pools (both infinities together, NaN at every position)
+    for len in 0..=4usize { tuples(&RAW, len, &mut |v| { r.case(); let nan = v.iter().any(|x| x.is_nan()); r.check(guarded(|| has_nan(v)) == Some(nan), "vec_f64::has_nan: true exactly when some value is NaN", || format!("{:?}", v)); }); }
+    for &n in [5usize, 31, 32, 33, 63, 64, 65, 100, 127, 128, 129, 1000, 4097].iter() {
+        for base_kind in 0..4 {
+            // 0: strictly ascending around 0; 1: constant; 2: strictly descending; 3: ascending huge values (their sum overflows)
+            let base: Vec<f64> = (0..n).map(|k| match base_kind { 0 => 0.5 * k as f64 - 7.0, 1 => 2.5, 2 => 7.0 - 0.5 * k as f64, _ => 1e308 + 1e292 * k as f64 }).collect();
+            let bname = ["0.5k - 7", "2.5 (constant)", "7 - 0.5k", "1e308 + 1e292 k"][base_kind];
+            eval(r, &base, bname);
+            let pos: Vec<usize> = pick_indices(n);
+            for &p in pos.iter() {
+                let mut faults: Vec<(f64, &str)> = vec![(f64::NAN, "NaN"), (f64::INFINITY, "+inf"), (f64::NEG_INFINITY, "-inf")];
+                if p > 0 { faults.push((ulp_dn(base[p - 1]), "one ulp below its predecessor")); faults.push((ulp_up(base[p - 1]), "one ulp above its predecessor")); faults.push((base[p - 1], "equal to its predecessor")); }
+                for (f, fname) in faults {
+                    let mut v = base.clone();
+                    v[p] = f;
+                    eval(r, &v, &format!("{} with v[{}] = {} ({:?})", bname, p, fname, f));
+                }
+            }
+        }
+    }
+}
+
+/// sorting helpers of vec_f64 (documented meaning): a permutation in ascending order, NaN last / NaN panics
+fn check_sort_helpers(r: &mut Report) {
+    use crate::common::vec_f64::{sort_nan_panics, sort_with_nan};
+    let mut inputs: Vec<Vec<f64>> = vec![];
+    for len in 0..=5usize { tuples(&[3.0, -1.0, f64::NAN, 0.5, f64::NEG_INFINITY], len, &mut |v| inputs.push(v.to_vec())); }
+    for &n in [33usize, 100, 1000].iter() { for nan_every in [0usize, 1, 7] {
+        inputs.push((0..n).map(|k| if nan_every > 0 && k % nan_every == 0 && (nan_every > 1 || k % 2 == 0) { f64::NAN } else { ((k * 37) % 101) as f64 * 0.25 - (k % 3) as f64 }).collect());
+    } }
+    for v in inputs.iter() {
+        r.case();
+        let d = || if v.len() <= 8 { format!("{:?}", v) } else { format!("{} values, {} NaN", v.len(), v.iter().filter(|x| x.is_nan()).count()) };
+        let nn = v.iter().filter(|x| x.is_nan()).count();
+        let perm = |w: &[f64]| { let mut a: Vec<u64> = v.iter().map(|x| x.to_bits()).collect(); let mut b: Vec<u64> = w.iter().map(|x| x.to_bits()).collect(); a.sort(); b.sort(); a == b };
+        let mut w = v.clone();
+        if guarded(|| sort_with_nan(&mut w)).is_none() { r.check(false, "vec_f64::sort_with_nan: returns (no panic)", d); }
+        else {
+            let k = w.len() - nn;
+            r.check(perm(&w) && w[..k].iter().all(|x| !x.is_nan()) && w[..k].windows(2).all(|p| p[0] <= p[1]) && w[k..].iter().all(|x| x.is_nan()), "vec_f64::sort_with_nan: a permutation, ascending, NaN values last", d);
+        }
+        let mut w = v.clone();
+        let got = guarded(|| sort_nan_panics(&mut w));
+        if nn == 0 { r.check(got.is_some() && perm(&w) && w.windows(2).all(|p| p[0] <= p[1]), "vec_f64::sort_nan_panics: a permutation in ascending order when there is no NaN", d); }
+        else if v.len() >= 2 { r.check(got.is_none(), "vec_f64::sort_nan_panics: panics on a NaN (never a silently unsorted slice)", d); }
+    }
+}
+
+/// linear / linear_space: magnitudes (far bounds, tiny extents, inexact steps), sizes past 32 / 1000 / 4096, bounds in either order, +-0.0
+fn check_linear_magnitudes(r: &mut Report) {
+    let b = [-1e8, -1e6, -3.0, -0.0, 0.0, 1e-9, 0.1, 1.0 / 3.0, 1.0, 1.0 + 1e-9, 1e6, 1e6 + 1e-3, 1e8, 1e8 + 1e-6, 1e8 + 1.0];
+    for &a0 in b.iter() { for &a1 in b.iter() { for &n in [2usize, 3, 10, 33, 100, 1000, 4097].iter() {
+        r.case();
+        for which in 0..2 {
+            let name = if which == 0 { "DiscreteDomain::linear" } else { "linear_space" };
+            let d = || format!("{}({:?}, {:?}, {})", name, a0, a1, n);
+            let Some(dom) = guarded(|| if which == 0 { DiscreteDomain::linear(a0, a1, n) } else { linear_space(a0, a1, n) }) else { r.check(false, "linear: returns (no panic)", d); continue; };
+            let v = dom.values();
+            let (lo, hi) = (a0.min(a1), a0.max(a1));
+            r.check(v.len() == n, "linear: n values", d);
+            r.check(finite_ascending(v), "linear: finite ascending values for bounds in either order", d);
+            if v.len() != n { continue; }
+            let step = (hi - lo) / ((n - 1) as f64);
+            r.check(v[0] == lo, "linear: first value is the smaller bound", d);
+            r.check(near(v[n - 1], hi, hi - lo), "linear: last value is the larger bound", d);
+            r.check((0..n).all(|k| near(v[k], lo + ((k as f64) * (hi - lo)) / ((n - 1) as f64), step)), "linear: evenly spaced", d);
+            // no collapse: the ends stay distinct; neighbours stay distinct when the step is well above the rounding step of the values
+            let strict = step > 16.0 * f64::EPSILON * lo.abs().max(hi.abs());
+            r.check(lo == hi || (v[0] < v[n - 1] && (!strict || v.windows(2).all(|w| w[0] < w[1]))), "linear: distinct bounds do not collapse", d);
+        }
+    } } }
+    // finite bounds whose difference overflows
+    for &(a0, a1) in [(-1e308, 1e308), (1e308, -1e308), (f64::MIN, f64::MAX), (-1.5e308, 0.5e308)].iter() { for &n in [2usize, 3, 5].iter() {
+        r.case();
+        for which in 0..2 {
+            let name = if which == 0 { "DiscreteDomain::linear" } else { "linear_space" };
+            let d = || format!("{}({:?}, {:?}, {})", name, a0, a1, n);
+            // a loud failure (panic) is an error; a returned domain must be valid
+            if let Some(dom) = guarded(|| if which == 0 { DiscreteDomain::linear(a0, a1, n) } else { linear_space(a0, a1, n) }) {
+                r.check(finite_ascending(dom.values()) && dom.len() == n, "[defect span overflow] linear / linear_space with finite bounds whose difference exceeds f64::MAX: finite ascending values or a loud failure - never a silently invalid domain", d);
+            }
+        }
+    } }
+}
+
+// ------------------------------------------------------------------------------------------------ wave 5: small family, more functions
+fn same_series(a: &Series1, xs: &[f64], ys: &[f64]) -> bool { bits_eq(a.x.values(), xs) && same_bits_or_eq(&a.y, ys) }
+
+fn check_series_w5(r: &mut Report, xs: &[f64], ys: &[f64]) {
+    use crate::func1::Line1;
+    let Ok(s) = Series1::try_new(xs.to_vec(), ys.to_vec()) else { return; };
+    r.case();
+    let n = xs.len();
+    let (x_min, x_max) = (xs[0], xs[n - 1]);
+    let sd = format!("Series1 x={:?} y={:?}", xs, ys);
+    let strict = xs.windows(2).all(|w| w[0] < w[1]);
+
+    // ---- probes bit-equal to a knot, one ulp either side, +-0.0: interpolate, index_of_x_after; self-test of the fast oracle
+    let mut probes = vec![0.0, -0.0];
+    for &x in xs { probes.push(x); probes.push(ulp_up(x)); probes.push(ulp_dn(x)); }
+    for &x in probes.iter().chain(PROBES.iter()) {
+        let d = || format!("{} interpolate({:?})", sd, x);
+        let g = graph_vals(xs, ys, x);
+        r.check(same_bits_or_eq(&g, &graph_vals_fast(xs, ys, x)), "oracle self-test: the partition_point graph oracle agrees with the segment scan", d);
+        match guarded(|| s.interpolate(x)) {
+            None => r.check(false, "interpolate: returns (no panic)", d),
+            Some(v) => {
+                if g.is_empty() { r.check(v.is_nan(), "interpolate: NaN outside the domain", d); }
+                else if xs.contains(&x) { r.check(g.iter().any(|w| *w == v), "interpolate: the stored value at a knot", d); }
+                else { r.check(g.iter().any(|w| close(*w, v)), "interpolate: the linear blend between knots", d); }
+            }
+        }
+        r.check(guarded(|| s.index_of_x_after(x)).map_or(false, |i| index_after_ok(xs, x, i)),
+            "index_of_x_after: the index of a knot equal to x, else of the first knot above x (0 before the first, the length after the last)", || format!("{} index_of_x_after({:?})", sd, x));
+    }
+    // ---- plain accessors
+    r.check(guarded(|| s.is_ordered()) == Some(strict), "is_ordered: true exactly when the abscissae strictly increase", || sd.clone());
+    r.check(guarded(|| s.interval()).map_or(false, |i| i.min == x_min && i.max == x_max), "interval: from the first to the last abscissa", || sd.clone());
+    r.check(s.xys().count() == n && s.xys().zip(xs.iter().zip(ys.iter())).all(|((a, b), (c, e))| a == c && b == e), "xys: the stored pairs in order", || sd.clone());
+    r.check(guarded(|| s.as_points()).map_or(false, |p| p.len() == n && (0..n).all(|k| p[k].x == xs[k] && p[k].y == ys[k])), "as_points: the stored pairs in order", || sd.clone());
+    // ---- Func1::fs and from_sampled over a domain reaching beyond the series on both sides
+    if let Some(dom) = guarded(|| DiscreteDomain::linear(x_max + 1.0, x_min - 1.0, 9)) {
+        let dv = dom.values().to_vec();
+        let d = || format!("{} fs / from_sampled over linear({:?}, {:?}, 9)", sd, x_max + 1.0, x_min - 1.0);
+        match guarded(|| s.fs(&dom)) {
+            None => r.check(false, "fs: returns (no panic)", d),
+            Some(v) => r.check(v.len() == dv.len() && (0..dv.len().min(v.len())).all(|k| on_graph(xs, ys, dv[k], v[k])), "fs: one ordinate per domain value, the interpolant inside the series and NaN outside", d),
+        }
+        match guarded(|| Series1::from_sampled(&s, dom.clone())) {
+            None => r.check(false, "from_sampled: returns (no panic)", d),
+            Some(t) => {
+                r.check(inv(&t) && bits_eq(t.x.values(), &dv), "from_sampled: the given abscissae with a matching number of ordinates", d);
+                r.check(t.y.len() == dv.len() && (0..dv.len().min(t.y.len())).all(|k| on_graph(xs, ys, dv[k], t.y[k])), "from_sampled: ordinate k is the sampled function at abscissa k", d);
+            }
+        }
+    }
+    // ---- derived series that keep the abscissae: the invariant survives, nothing collapses
+    let line = Line1::new_mxb(0.5, -1.0);
+    // a function that is NaN outside [0.75, 1.25]: the ordinates may become NaN, their number may not change
+    let narrow = Series1::try_new(vec![0.75, 1.25], vec![2.0, -1.0]).unwrap();
+    let derived: Vec<(&str, Option<Series1>)> = vec![
+        ("scaled_y(series on [0.75, 1.25])", guarded(|| s.scaled_y(&narrow))), ("+ series on [0.75, 1.25]", guarded(|| &s + (&narrow as &dyn Func1))), ("- series on [0.75, 1.25]", guarded(|| &s - (&narrow as &dyn Func1))),
+        ("abs", guarded(|| s.abs())), ("scaled_y(line)", guarded(|| s.scaled_y(&line))), ("scaled_y(self)", guarded(|| s.scaled_y(&s))),
+        ("+ line", guarded(|| &s + (&line as &dyn Func1))), ("- line", guarded(|| &s - (&line as &dyn Func1))),
+        ("dydx", if n >= 2 { guarded(|| s.dydx()) } else { None }), ("savitzky_golay", guarded(|| s.savitzky_golay())),
+        ("no-op remove_nan", guarded(|| s.remove_nan())), ("no-op shift_by(0, 0)", guarded(|| s.shift_by(0.0, 0.0))), ("no-op scaled_by(1, 1)", guarded(|| s.scaled_by(1.0, 1.0))),
+    ];
+    for (name, t) in derived.iter() {
+        if let Some(t) = t {
+            r.check(inv(t) && bits_eq(t.x.values(), xs) && t.y.len() == n, "derived series (abs, scaled_y, + / - a function, dydx, savitzky_golay, no-op shift / scale / remove_nan): the same finite ascending abscissae with a matching number of ordinates", || format!("{} {}", sd, name));
+        } else if *name != "dydx" { r.check(false, "derived series: returns (no panic)", || format!("{} {}", sd, name)); }
+    }
+    // no-op updates give back the same function
+    for (name, t) in derived.iter().filter(|e| e.0.starts_with("no-op")) { if let Some(t) = t { r.check(same_series(t, xs, ys), "no-op update (remove_nan without NaN, shift by 0, scale by 1): the series is unchanged", || format!("{} {}", sd, name)); } }
+
+    // ---- the whole domain as a slice is the parent (when the first abscissa is not repeated: the search may land on either copy)
+    if n == 1 || xs[0] < xs[1] {
+        r.check(guarded(|| s.between(x_min, x_max)).map_or(false, |p| same_series(&p, xs, ys)), "between(x_min, x_max): the parent itself", || sd.clone());
+    }
+    // ---- in_interval with the Interval built from the bounds in reversed order
+    for &(lo, hi) in [(0.25, 2.5), (0.5, 2.0), (-1.0, 4.0), (1.0, 1.0)].iter() {
+        if hi < x_min { continue; }
+        let d = || format!("{} in_interval(Interval::new({:?}, {:?}))", sd, hi, lo);
+        let (p, q) = (guarded(|| s.between(lo, hi)), guarded(|| s.in_interval(Interval::new(hi, lo))));
+        r.check(matches!((&p, &q), (Some(p), Some(q)) if same_series(q, p.x.values(), &p.y)), "in_interval: the same piece as between(min, max)", d);
+    }
+    // ---- a slice of a slice is a slice of the parent
+    for &(a, b) in [(-1.0, 4.0), (0.25, 2.5), (0.5, 2.0), (0.0, 3.0)].iter() {
+        if b < x_min { continue; }
+        let Some(p1) = guarded(|| s.between(a, b)) else { continue; };
+        if !inv(&p1) || p1.y.is_empty() { continue; }
+        for &(c, e) in [(a, b), (0.5, 1.5), (0.75, 2.0), (1.0, 1.0), (0.25, 0.5)].iter() {
+            if !(a <= c && c <= e && e <= b) || e < p1.x_min() { continue; }
+            let d = || format!("{} between({:?}, {:?}).between({:?}, {:?})", sd, a, b, c, e);
+            let Some(p2) = guarded(|| p1.between(c, e)) else { r.check(false, "between: returns (no panic)", &d); continue; };
+            check_piece(r, xs, ys, &p2, c, e, "between of a between", &d);
+        }
+    }
+    // ---- split twice: three areas add up
+    let whole = area(xs, ys);
+    for &(c0, c1) in [(0.75, 1.5), (0.5, 2.0), (0.25, 2.75), (1.0, 1.0)].iter() {
+        if !(x_min <= c0 && c1 <= x_max) { continue; }
+        let d = || format!("{} split_at_x({:?}), lower piece split_at_x({:?})", sd, c1, c0);
+        let got = guarded(|| { let (lo, hi) = s.split_at_x(c1); let (a, b) = lo.as_ref().unwrap().split_at_x(c0); (a.unwrap().area_under(), b.unwrap().area_under(), hi.unwrap().area_under()) });
+        r.check(got.map_or(false, |(a, b, c)| close(a + b + c, whole)), "split_at_x: areas of the pieces add up to the whole", d);
+    }
+    // ---- middle_reiemann_areas: one strip per segment
+    {
+        let got = guarded(|| s.middle_reiemann_areas());
+        let ok = got.map_or(false, |v| v.len() == n - 1 && (0..n - 1).all(|k| close(v[k].0, xs[k] + (xs[k + 1] - xs[k]) / 2.0) && close(v[k].1, (ys[k] + ys[k + 1]) / 2.0 * (xs[k + 1] - xs[k]))));
+        r.check(ok, "middle_reiemann_areas: one (mid abscissa, trapezoid area) per segment", || sd.clone());
+    }
+    // ---- consumers of the level crossings
+    if x_min < x_max {
+        let d = || format!("{} bounds_at_y0()", sd);
+        match guarded(|| s.bounds_at_y0()) {
+            None => r.check(false, "bounds_at_y0: returns (no panic)", d),
+            Some(iv) => {
+                let chain_ok = !iv.is_empty() && iv[0].min == x_min && iv[iv.len() - 1].max == x_max && iv.windows(2).all(|w| w[0].max == w[1].min) && iv.iter().all(|i| i.min < i.max);
+                r.check(chain_ok, "bounds_at_y0: contiguous non-empty intervals from x_min to x_max", d);
+                let inner: Vec<f64> = iv.iter().skip(1).map(|i| i.min).collect();
+                let want: Vec<f64> = crossings(xs, ys, 0.0).into_iter().filter(|c| !close(*c, x_min) && !close(*c, x_max)).collect();
+                r.check(same_set(&inner, &want), "bounds_at_y0: the interior break points are exactly the abscissae where the interpolant equals 0", d);
+            }
+        }
+    }
+    for &x in xs.iter().chain([-1.0, 4.0, 0.75].iter()) { for &tol in [0.5, 0.25].iter() {
+        let d = || format!("{} plateau_at_maxima({:?}, {:?})", sd, x, tol);
+        let g = graph_vals(xs, ys, x);
+        match guarded(|| s.plateau_at_maxima(x, tol)) {
+            None => r.check(false, "plateau_at_maxima: returns (no panic)", d),
+            Some(None) => {}
+            Some(Some(i)) => {
+                r.check(!g.is_empty(), "plateau_at_maxima: None outside the domain", d);
+                let end_ok = |e: f64| e == x_min || e == x_max || g.iter().any(|v| graph_vals(xs, ys, e).iter().any(|w| close(*w, *v - tol)));
+                r.check(i.min <= x && x <= i.max && end_ok(i.min) && end_ok(i.max), "plateau_at_maxima: an interval around x whose ends are domain ends or abscissae where the interpolant equals f(x) - tol", d);
+            }
+        }
+    } }
+}
+
+// ------------------------------------------------------------------------------------------------ wave 5: long series
+struct Fam { name: String, xs: Vec<f64>, ys: Vec<f64>, h: f64 }
+const PAT_ZIG: [f64; 5] = [0.0, 3.0, -1.0, 2.0, 1.0];
+const PAT_FLAT: [f64; 7] = [0.0, 2.0, 2.0, -1.0, 1.0, 1.0, -1.0];
+const H30: f64 = 9.313225746154785e-10;   // 2^-30
+
+fn long_families() -> Vec<Fam> {
+    let mut out = vec![];
+    for &(base, h) in [(0.0, 0.5), (1e6, 0.25), (1e8, 0.015625), (-1e8, 0.5), (0.0, H30), (1.0, H30)].iter() {
+        for &n in [33usize, 100, 1000, 4097].iter() {
+            for layout in 0..4usize {
+                if n >= 1000 && (layout == 1) { continue; }
+                for pat in 0..2usize {
+                    if n == 4097 && pat == 1 && layout != 0 { continue; }
+                    let pos = |k: usize| -> f64 { match layout {
+                        0 => k as f64,                                              // uniform
+                        1 => (k * (k + 1) / 2) as f64,                              // growing gaps
+                        2 => (k - k / 7) as f64,                                    // every 7th abscissa repeated (vertical step)
+                        _ => (if k > n / 2 { k + 2000 } else { k }) as f64,          // one gap 2001 x the spacing
+                    } };
+                    let xs: Vec<f64> = (0..n).map(|k| base + h * pos(k)).collect();
+                    let ys: Vec<f64> = (0..n).map(|k| if pat == 0 { PAT_ZIG[k % 5] } else { PAT_FLAT[k % 7] }).collect();
+                    let lname = ["uniform", "growing gaps k(k+1)/2", "every 7th abscissa repeated", "one gap of 2001 spacings after the middle"][layout];
+                    out.push(Fam { name: format!("long series n={} x = {:?} + {:?} * ({}) y = {}", n, base, h, lname, if pat == 0 { "[0,3,-1,2,1] repeated" } else { "[0,2,2,-1,1,1,-1] repeated" }), xs, ys, h });
+                }
+            }
+        }
+    }
+    out
+}
+fn area_scale(xs: &[f64], ys: &[f64]) -> f64 { (0..xs.len().saturating_sub(1)).map(|i| ((xs[i + 1] - xs[i]) * (ys[i] + ys[i + 1]) * 0.5).abs() + (xs[i + 1] - xs[i]) * 1e-3).sum() }
+fn aclose(a: f64, b: f64, scale: f64) -> bool { (a - b).abs() <= 1e-9 * scale }
+
+/// piece of a long parent: the clauses of check_piece, evaluated with the fast oracle and searches instead of scans
+fn check_piece_long(r: &mut Report, f: &Fam, p: &Series1, lo: f64, hi: f64, what: &str, d: &dyn Fn() -> String) {
+    let (xs, ys) = (&f.xs[..], &f.ys[..]);
+    let px = p.x.values();
+    let cl = |c: &str| format!("{}: {}", what, c);
+    r.check(inv(p), &cl("finite ascending abscissae with a matching number of ordinates"), d);
+    if !inv(p) || px.is_empty() { r.check(!px.is_empty(), &cl("non-empty piece"), d); return; }
+    let m = px.len();
+    r.check(px[0] == lo.max(xs[0]), &cl("left end exactly at the requested bound (the first knot if the bound lies before the domain)"), d);
+    r.check(px[m - 1] == hi, &cl("right end exactly at the requested bound"), d);
+    r.check((0..m).all(|k| on_graph_fast(xs, ys, px[k], p.y[k])), &cl("same value as the parent at every returned abscissa"), d);
+    let kept = (0..xs.len()).all(|j| {
+        if !(lo < xs[j] && xs[j] <= hi) { return true; }
+        let a = px.partition_point(|v| *v < xs[j]);
+        let b = px.partition_point(|v| *v <= xs[j]);
+        (a..b).any(|k| same_val(p.y[k], ys[j]))
+    });
+    r.check(kept, &cl("every parent knot inside the interval is kept with its ordinate"), d);
+    let mut ok_mid = true;
+    for &k in pick_indices(m).iter() {
+        if k + 1 < m && px[k] < px[k + 1] {
+            for fr in [0.25, 0.5] {
+                let x = px[k] + (px[k + 1] - px[k]) * fr;
+                let g = graph_vals_fast(xs, ys, x);
+                let Some(v) = guarded(|| p.interpolate(x)) else { ok_mid = false; continue; };
+                ok_mid &= if g.is_empty() { v.is_nan() } else { g.iter().any(|w| same_val(v, *w)) };
+            }
+        }
+    }
+    r.check(ok_mid, &cl("same value as the parent between the returned abscissae"), d);
+    for e in [px[0], px[m - 1]] {
+        let v = guarded(|| p.interpolate(e));
+        r.check(v.map_or(false, |v| on_graph_fast(xs, ys, e, v)), &cl("evaluates like the parent at its ends"), d);
+    }
+}
+
+fn check_long_series(r: &mut Report, f: &Fam) {
+    let (xs, ys, h) = (&f.xs[..], &f.ys[..], f.h);
+    let n = xs.len();
+    let sd = &f.name;
+    let Ok(s) = Series1::try_new(xs.to_vec(), ys.to_vec()) else { r.check(false, "try_new: valid input is accepted", || sd.clone()); return; };
+    r.case();
+    let (x_min, x_max) = (xs[0], xs[n - 1]);
+    let strict = xs.windows(2).all(|w| w[0] < w[1]);
+    r.check(guarded(|| s.is_ordered()) == Some(strict), "is_ordered: true exactly when the abscissae strictly increase", || sd.clone());
+    r.check(guarded(|| s.x_min()) == Some(x_min) && guarded(|| s.x_max()) == Some(x_max), "x_min / x_max are the first and last abscissa", || sd.clone());
+
+    // ---- interpolation and index lookups at knots, one ulp either side, mid / quarter points, outside, +-0.0
+    let probes = knot_probes(xs);
+    for &x in probes.iter() {
+        let d = || format!("{} interpolate({:?})", sd, x);
+        let g = graph_vals_fast(xs, ys, x);
+        match guarded(|| s.interpolate(x)) {
+            None => r.check(false, "interpolate: returns (no panic)", d),
+            Some(v) => {
+                if g.is_empty() { r.check(v.is_nan(), "interpolate: NaN outside the domain", d); }
+                else if xs.binary_search_by(|w| w.partial_cmp(&x).unwrap()).is_ok() { r.check(g.iter().any(|w| *w == v), "interpolate: the stored value at a knot", d); }
+                else { r.check(g.iter().any(|w| close(*w, v)), "interpolate: the linear blend between knots", d); }
+                r.check(guarded(|| s.f(x)).map_or(false, |w| same_val(w, v)), "Func1::f agrees with interpolate", d);
+            }
+        }
+        r.check(guarded(|| s.index_of_x_after(x)).map_or(false, |i| index_after_ok(xs, x, i)),
+            "index_of_x_after: the index of a knot equal to x, else of the first knot above x (0 before the first, the length after the last)", || format!("{} index_of_x_after({:?})", sd, x));
+    }
+
+    // ---- areas
+    let whole = area(xs, ys);
+    let scale = area_scale(xs, ys);
+    r.check(guarded(|| s.area_under()).map_or(false, |a| aclose(a, whole, scale)), "area_under: sum of the trapezoids", || sd.clone());
+    {
+        let got = guarded(|| s.middle_reiemann_areas());
+        let ok = got.map_or(false, |v| v.len() == n - 1 && (0..n - 1).all(|k| near(v[k].0, xs[k] + (xs[k + 1] - xs[k]) / 2.0, h) && aclose(v[k].1, (ys[k] + ys[k + 1]) / 2.0 * (xs[k + 1] - xs[k]), scale / (n as f64))));
+        r.check(ok, "middle_reiemann_areas: one (mid abscissa, trapezoid area) per segment", || sd.clone());
+    }
+
+    // ---- cut points: ends, one ulp inside / outside, knots, a repeated abscissa, mid / quarter points, inside the big gap
+    let mid = n / 2;
+    let mut cuts = vec![ulp_dn(x_min), x_min - 3.0 * h, x_min, ulp_up(x_min), xs[1], xs[3] + (xs[4] - xs[3]) * 0.25, xs[6], xs[7], ulp_dn(xs[7]), xs[mid], ulp_up(xs[mid]),
+                        xs[mid] + (xs[mid + 1] - xs[mid]) * 0.5, xs[n - 2], ulp_dn(x_max), x_max, ulp_up(x_max), x_max + 3.0 * h];
+    if n > 70 { cuts.push(xs[64]); cuts.push(xs[64] + (xs[65] - xs[64]) * 0.75); }
+    if n > 1100 { cuts.push(xs[1024]); cuts.push(xs[1023] + (xs[1024] - xs[1023]) * 0.5); }
+    cuts.sort_by(|a, b| a.partial_cmp(b).unwrap());
+    cuts.dedup();
+    // splits
+    for &x in cuts.iter() {
+        let d = || format!("{} split_at_x({:?})", sd, x);
+        let Some((a, b)) = guarded(|| s.split_at_x(x)) else { r.check(false, "split_at_x: returns (no panic)", &d); continue; };
+        let is_whole = |p: &Option<Series1>| p.as_ref().map_or(false, |p| same_series(p, xs, ys));
+        if x > x_max { r.check(is_whole(&a) && b.is_none(), "split_at_x: right of the domain: (whole, None)", &d); continue; }
+        if x < x_min { r.check(a.is_none() && is_whole(&b), "split_at_x: left of the domain: (None, whole)", &d); continue; }
+        let (Some(a), Some(b)) = (a, b) else { r.check(false, "split_at_x: two pieces inside the domain", &d); continue; };
+        check_piece_long(r, f, &a, x_min, x, "split_at_x lower piece", &d);
+        check_piece_long(r, f, &b, x, x_max, "split_at_x upper piece", &d);
+        if inv(&a) && inv(&b) {
+            let (aa, ab) = (guarded(|| a.area_under()), guarded(|| b.area_under()));
+            r.check(matches!((aa, ab), (Some(p), Some(q)) if aclose(p + q, whole, scale) && aclose(p, area(a.x.values(), &a.y), scale) && aclose(q, area(b.x.values(), &b.y), scale)),
+                "split_at_x: areas of the pieces add up to the whole", &d);
+        }
+    }
+    // slices (every ordered pair of cuts reaching into the domain), Interval built in reversed order, slice of a slice
+    let few: Vec<f64> = if n > 1100 { cuts.iter().copied().step_by(2).collect() } else { cuts.clone() };
+    for (i0, &x0) in few.iter().enumerate() { for &x1 in few[i0..].iter() {
+        if x1 < x_min { continue; }
+        let d = || format!("{} between({:?}, {:?})", sd, x0, x1);
+        let Some(p) = guarded(|| s.between(x0, x1)) else { r.check(false, "between: returns (no panic)", &d); continue; };
+        check_piece_long(r, f, &p, x0, x1, "between", &d);
+        match guarded(|| s.in_interval(Interval::new(x1, x0))) {
+            Some(q) => r.check(same_series(&q, p.x.values(), &p.y), "in_interval: the same piece as between(min, max)", &d),
+            None => r.check(false, "in_interval: returns (no panic)", &d),
+        }
+    } }
+    if strict { r.check(guarded(|| s.between(x_min, x_max)).map_or(false, |p| same_series(&p, xs, ys)), "between(x_min, x_max): the parent itself", || sd.clone()); }
+    {
+        let (a, b) = (xs[1] + (xs[2] - xs[1]) * 0.5, xs[n - 2] + (xs[n - 1] - xs[n - 2]) * 0.5);
+        let (c, e) = (xs[3] + (xs[4] - xs[3]) * 0.25, xs[mid] + (xs[mid + 1] - xs[mid]) * 0.5);
+        let d = || format!("{} between({:?}, {:?}).between({:?}, {:?})", sd, a, b, c, e);
+        match guarded(|| s.between(a, b).between(c, e)) { Some(p2) => check_piece_long(r, f, &p2, c, e, "between of a between", &d), None => r.check(false, "between: returns (no panic)", &d) }
+        // split twice: three areas add up
+        let d = || format!("{} split_at_x({:?}), lower piece split_at_x({:?})", sd, e, c);
+        let got = guarded(|| { let (lo, hi) = s.split_at_x(e); let (p, q) = lo.as_ref().unwrap().split_at_x(c); (p.unwrap().area_under(), q.unwrap().area_under(), hi.unwrap().area_under()) });
+        r.check(got.map_or(false, |(p, q, t)| aclose(p + q + t, whole, scale)), "split_at_x: areas of the pieces add up to the whole", d);
+    }
+
+    // ---- resampling: counts past 32 / 1000 / 4096, spacings that give them; resampling twice
+    for &k in [2usize, 3, 33, 100, 1000, 4097].iter() {
+        check_resampled_with(r, &s, xs, ys, &format!("{} resampled_n({})", sd, k), guarded(|| s.resampled_n(k)), Some(k), true);
+    }
+    for &k in [1.0, 32.0, 1000.0, 4096.0, 0.5, 7.3].iter() {
+        let sp = (x_max - x_min) / k;
+        check_resampled_with(r, &s, xs, ys, &format!("{} resampled_x({:?})", sd, sp), guarded(|| s.resampled_x(sp)), None, true);
+    }
+    if let Some(t) = guarded(|| s.resampled_n(33)) {
+        if inv(&t) && t.y.len() == 33 {
+            let (tx, ty) = (t.x.values().to_vec(), t.y.clone());
+            check_resampled_with(r, &t, &tx, &ty, &format!("{} resampled_n(33).resampled_n(33)", sd), guarded(|| t.resampled_n(33)), Some(33), true);
+            check_resampled_with(r, &t, &tx, &ty, &format!("{} resampled_n(33).resampled_n(65)", sd), guarded(|| t.resampled_n(65)), Some(65), true);
+        }
+    }
+
+    // ---- level crossings: generic levels, levels bit-equal to a knot ordinate and one ulp either side, +-0.0
+    for &lv in [0.5, 2.5, -0.5, 3.0, ulp_dn(3.0), ulp_up(3.0), -1.0, ulp_up(-1.0), ulp_dn(-1.0), 0.0, -0.0, 1.0, 2.0].iter() {
+        let d = || format!("{} y_crossings({:?})", sd, lv);
+        let Some(c) = guarded(|| s.y_crossings(lv)) else { r.check(false, "y_crossings: returns (no panic)", &d); continue; };
+        r.check(c.iter().all(|x| x.is_finite()) && c.windows(2).all(|w| w[0] < w[1]), "y_crossings: finite, strictly ascending (unique)", &d);
+        // ORACLE (no merging): every non-vertical segment that meets the level
+        let mut want: Vec<f64> = vec![];
+        for j in 0..n - 1 {
+            let (x0, x1, v0, v1) = (xs[j], xs[j + 1], ys[j], ys[j + 1]);
+            if x0 == x1 || !(v0.min(v1) <= lv && lv <= v0.max(v1)) { continue; }
+            if v0 == v1 { want.push(x0); want.push(x1); } else { want.push(x0 + (x1 - x0) * ((lv - v0) / (v1 - v0))); }
+        }
+        want.sort_by(|a, b| a.partial_cmp(b).unwrap());
+        let near_some = |p: f64, set: &[f64], hh: f64| { let i = set.partition_point(|q| *q < p); (i.saturating_sub(1)..(i + 2).min(set.len())).any(|k| near(p, set[k], hh)) };
+        // the local spacing around a crossing is at least h
+        // (the value test allows for the rounding of the abscissa itself: 8 rounding steps times the steepest slope 4 / h)
+        let vtol = 1e-9 * (1.0 + lv.abs()) + (4.0 / h) * 8.0 * f64::EPSILON * x_min.abs().max(x_max.abs());
+        r.check(c.iter().all(|&x| graph_vals_fast(xs, ys, x).iter().any(|w| (*w - lv).abs() <= vtol) && near_some(x, &want, h)), "y_crossings: the interpolant equals the level at every reported abscissa", &d);
+        r.check(want.iter().all(|&p| near_some(p, &c, h)), "y_crossings: every abscissa where a segment meets the level is reported (knots on the level, flat segments included)", &d);
+    }
+
+    // ---- scaling (negative factors), shifting, the same operation twice, inverse pairs (all exact on dyadic data)
+    for &(sx, sy) in [(-1.0, 1.0), (-0.5, 2.0), (2.0, -1.0), (-4.0, 0.5)].iter() {
+        let d = || format!("{} scaled_by({:?}, {:?})", sd, sx, sy);
+        let Some(t) = guarded(|| s.scaled_by(sx, sy)) else { r.check(false, "scaled_by: returns (no panic)", &d); continue; };
+        r.check(inv(&t) && t.y.len() == n, "scaled_by: finite ascending abscissae with a matching number of ordinates", &d);
+        if !(inv(&t) && t.y.len() == n) { continue; }
+        r.check((0..n).all(|k| { let q = if sx < 0.0 { n - 1 - k } else { k }; t.x.values()[q] == xs[k] * sx && t.y[q] == ys[k] * sy }), "scaled_by: point k maps to (sx * x, sy * y), order reversed for a negative factor", &d);
+        r.check(t.x.values()[0] < t.x.values()[n - 1], "scaled_by: does not collapse", &d);
+        let okf = probes.iter().filter(|p| p.is_finite() && (**p * sx) / sx == **p).all(|&p| { let g = graph_vals_fast(xs, ys, p); guarded(|| t.interpolate(p * sx)).map_or(false, |v| if g.is_empty() { v.is_nan() } else { g.iter().any(|w| same_val(*w * sy, v)) }) });
+        r.check(okf, "scaled_by: the scaled series evaluates to sy * f(x) at sx * x", &d);
+        let back = guarded(|| t.scaled_by(1.0 / sx, 1.0 / sy));
+        r.check(back.map_or(false, |b| inv(&b) && (0..n).all(|k| b.x.values()[k] == xs[k] && b.y[k] == ys[k])), "scaled_by twice (factor, then its inverse; both powers of two): the original series", &d);
+    }
+    for &(dx, dy) in [(1e6, 0.5), (-3.0 * h, -1.0), (h * 0.5, 0.0)].iter() {
+        let d = || format!("{} shift_by({:?}, {:?})", sd, dx, dy);
+        let Some(t) = guarded(|| s.shift_by(dx, dy)) else { r.check(false, "shift_by: returns (no panic)", &d); continue; };
+        r.check(inv(&t) && t.y.len() == n, "shift_by: finite ascending abscissae with a matching number of ordinates", &d);
+        if !(inv(&t) && t.y.len() == n) { continue; }
+        r.check((0..n).all(|k| t.x.values()[k] == xs[k] + dx && t.y[k] == ys[k] + dy), "shift_by: point k maps to (x + dx, y + dy)", &d);
+        // the data are dyadic: when x + dx - dx == x for every abscissa (exact arithmetic) the round trip is the identity
+        if (0..n).all(|k| (xs[k] + dx) - dx == xs[k] && (ys[k] + dy) - dy == ys[k]) {
+            let back = guarded(|| t.shift_by(-dx, -dy));
+            r.check(back.map_or(false, |b| inv(&b) && (0..n).all(|k| b.x.values()[k] == xs[k] && b.y[k] == ys[k])), "shift_by twice (a shift, then its opposite; exact on these data): the original series", &d);
+            let okf = probes.iter().filter(|p| p.is_finite() && (**p + dx) - dx == **p).all(|&p| { let g = graph_vals_fast(xs, ys, p); guarded(|| t.interpolate(p + dx)).map_or(false, |v| if g.is_empty() { v.is_nan() } else { g.iter().any(|w| same_val(*w + dy, v)) }) });
+            r.check(okf, "shift_by: the shifted series evaluates to f(x) + dy at x + dx", &d);
+        }
+    }
+    // chain: mirror, shift back onto the original interval, slice, resample
+    {
+        let c = x_min + x_max;
+        let d = || format!("{} scaled_by(-1, 1).shift_by({:?}, 0).between(..).resampled_n(33)", sd, c);
+        if (0..n).all(|k| (-xs[k] + c) == c - xs[k] && c - (c - xs[k]) == xs[k]) {
+            let (lo, hi) = (xs[2] + (xs[3] - xs[2]) * 0.5, xs[n - 3]);
+            match guarded(|| { let m = s.scaled_by(-1.0, 1.0).shift_by(c, 0.0); let p = m.between(lo, hi); let q = p.resampled_n(33); (m, p, q) }) {
+                None => r.check(false, "chain: returns (no panic)", &d),
+                Some((m, p, q)) => {
+                    r.check(inv(&m) && m.x_min() == x_min && m.x_max() == x_max, "chain: mirrored series keeps the invariant", &d);
+                    r.check(inv(&p) && !p.y.is_empty() && p.x_min() == lo && p.x_max() == hi, "chain: slice of the mirrored series ends at the requested bounds", &d);
+                    r.check(inv(&q) && q.y.len() == 33 && (0..33).all(|k| graph_vals_fast(xs, ys, c - q.x.values()[k]).iter().any(|w| same_val(*w, q.y[k]))), "chain: resampled slice lies on the mirrored graph", &d);
+                }
+            }
+        }
+    }
+
+    // ---- NaN ordinates on a long series: at the first / last point, every third point, all points
+    for mode in 0..4usize {
+        let isn = |k: usize| match mode { 0 => k == 0, 1 => k == n - 1, 2 => k % 3 == 1, _ => true };
+        let yn: Vec<f64> = (0..n).map(|k| if isn(k) { f64::NAN } else { ys[k] }).collect();
+        let d = || format!("{} with NaN ordinates {} remove_nan()", sd, ["at the first point", "at the last point", "at every k % 3 == 1", "everywhere"][mode]);
+        let Ok(sn) = Series1::try_new(xs.to_vec(), yn.clone()) else { continue; };
+        let Some(t) = guarded(|| sn.remove_nan()) else { r.check(false, "remove_nan: returns (no panic)", d); continue; };
+        r.check(inv(&t), "remove_nan: finite ascending abscissae with a matching number of ordinates", d);
+        let keep: Vec<usize> = (0..n).filter(|k| !isn(*k)).collect();
+        r.check(t.y.iter().all(|v| !v.is_nan()), "remove_nan: no NaN ordinate is left", d);
+        r.check(t.y.len() == keep.len() && t.x.values().len() == keep.len() && keep.iter().enumerate().all(|(q, &k)| t.x.values()[q] == xs[k] && t.y[q] == ys[k]), "remove_nan: exactly the points with a non-NaN ordinate are kept, in order", d);
+        r.check(guarded(|| sn.has_nan()) == Some(true), "has_nan: true exactly when an ordinate is NaN", d);
+        for &(x0, x1) in [(xs[1], xs[1]), (ulp_up(xs[1]), xs[2]), (xs[0], ulp_dn(xs[1])), (ulp_up(xs[n - 2]), x_max), (x_max, x_max + h), (ulp_up(x_max), x_max + h), (x_min - h, ulp_dn(x_min)), (xs[mid], xs[mid + 2]), (xs[2], xs[1])].iter() {
+            let want = (0..n).any(|k| isn(k) && xs[k] >= x0 && xs[k] <= x1);
+            r.check(guarded(|| sn.has_nan_between(x0, x1)) == Some(want), "has_nan_between: true exactly when a NaN ordinate lies in [x0, x1]", || format!("{} has_nan_between({:?}, {:?})", d(), x0, x1));
+        }
+    }
+    r.check(guarded(|| s.has_nan()) == Some(false), "has_nan: true exactly when an ordinate is NaN", || sd.clone());
+}
+
+/// resampling a series whose extent exceeds f64::MAX (finite abscissae): a valid result that keeps both end points, or a loud failure
+fn check_resample_overflow(r: &mut Report) {
+    for (xs, ys) in [(vec![-1e308, 1e308], vec![0.0, 1.0]), (vec![-1.5e308, 0.0, 1e308], vec![0.0, 1.0, 2.0])] {
+        let Ok(s) = Series1::try_new(xs.clone(), ys.clone()) else { r.check(false, "try_new: valid input is accepted", || format!("{:?}", xs)); continue; };
+        for n in [2usize, 3, 5] {
+            r.case();
+            let d = || format!("Series1 x={:?} y={:?} resampled_n({})", xs, ys, n);
+            if let Some(t) = guarded(|| s.resampled_n(n)) {
+                let tx = t.x.values();
+                r.check(inv(&t) && tx.len() == n && tx[0] == xs[0] && tx[n - 1] == xs[xs.len() - 1] && tx.windows(2).all(|w| w[0] < w[1]),
+                    "[defect span overflow] resampled_n on finite abscissae whose extent exceeds f64::MAX: n ascending points from x_min to x_max or a loud failure - never a silently collapsed series", d);
+            }
+        }
+    }
+}
+
 pub fn run() -> Option<Report> {
-    let mut r = Report::new("constructors on every vector of length <= 4 over {-inf,-1,0,0.5,1,+inf,NaN}, push chains <= 3, linear/linear_space over bounds {-1,0,0.5,1,2,3}^2 x n in {2,3,4,5,9}; every series with 1..=4 non-decreasing abscissae over {0,0.5,1,2,3} and ordinates over {-1,0,1,2}: interpolate / between / in_interval / split_at_x / area_under / resampled_n / resampled_x / y_crossings / scaled_by / shift_by / one chain, probes and bounds over 11 values in [-1,4] plus 1+2^-50 and 2-2^-40 for slices/splits, 8 levels, counts {2,3,4,5,7,9}; two-knot series with inexact stepping x counts 2..=24; remove_nan / has_nan / has_nan_between with ordinates over {NaN,+inf,-inf,0,1}; wave 4: vec_f64 validation helpers, try_from and try_new on every vector of length <= 4 over {-1, -1+2^-53, 0, 5e-324, 0.3, 0.1+0.2, 1, 1+2^-52, +inf, NaN} (neighbours one rounding step apart), push chains of length 4 over {-1, 0, 0.3, 0.1+0.2, 1, 2, 3, -inf, NaN}; shift_by / scaled_by with parameters {+-inf, NaN, +-1e308, +-f64::MAX, +-10, +-2, 1e-320} on 7 series incl. abscissae up to +-1.7e308");
+    let mut r = Report::new("constructors on every vector of length <= 4 over {-inf,-1,0,0.5,1,+inf,NaN}, push chains <= 3, linear/linear_space over bounds {-1,0,0.5,1,2,3}^2 x n in {2,3,4,5,9}; every series with 1..=4 non-decreasing abscissae over {0,0.5,1,2,3} and ordinates over {-1,0,1,2}: interpolate / between / in_interval / split_at_x / area_under / resampled_n / resampled_x / y_crossings / scaled_by / shift_by / one chain, probes and bounds over 11 values in [-1,4] plus 1+2^-50 and 2-2^-40 for slices/splits, 8 levels, counts {2,3,4,5,7,9}; two-knot series with inexact stepping x counts 2..=24; remove_nan / has_nan / has_nan_between with ordinates over {NaN,+inf,-inf,0,1}; wave 4: vec_f64 validation helpers, try_from and try_new on every vector of length <= 4 over {-1, -1+2^-53, 0, 5e-324, 0.3, 0.1+0.2, 1, 1+2^-52, +inf, NaN} (neighbours one rounding step apart), push chains of length 4 over {-1, 0, 0.3, 0.1+0.2, 1, 2, 3, -inf, NaN}; shift_by / scaled_by with parameters {+-inf, NaN, +-1e308, +-f64::MAX, +-10, +-2, 1e-320} on 7 series incl. abscissae up to +-1.7e308; wave 5: index_of / bounds / accessors on domains from every constructor (empty, 1..4 values over {0,0.5,1,2,3} with repeats, 33/100/1000/4097 values at origins {0, 1e6, 1e8, -1e8} and spacings {0.5, 0.25, 2^-6, 2^-30}, with every 7th value repeated), probes = knots bit for bit, one ulp either side, mid and quarter points, +-0.0, +-inf; push sequences of 14 steps on 5 starting states and first pushes over 8 extreme values; vec_f64 helpers / try_from / try_new on vectors of {5,31,32,33,63,64,65,100,127,128,129,1000,4097} values x 4 base shapes x one fault (NaN, +-inf, +-1 ulp, repeat) at every position (n <= 129) or 22 positions around 0/32/64/1000/1024/4096/end; sort helpers on all vectors of length <= 5 over {3,-1,NaN,0.5,-inf} and 9 long ones; linear / linear_space over 15^2 bounds in {+-1e8, -1e6, -3, +-0, 1e-9, 0.1, 1/3, 1, 1+1e-9, 1e6, 1e6+1e-3, 1e8+1e-6, 1e8+1} x n in {2,3,10,33,100,1000,4097} and 4 bound pairs whose difference overflows; small family again: ulp probes, index_of_x_after, accessors, fs / from_sampled, derived series, no-op updates, slices of slices, double splits, strips, bounds_at_y0, plateau_at_maxima; long series: 6 origin/spacing pairs x n in {33,100,1000,4097} x layouts {uniform, growing gaps, every 7th abscissa repeated, one gap of 2001 spacings} x 2 ordinate patterns: interpolate / index_of_x_after at ~60..500 probes, areas, <= 21 cut points (splits, all ordered pairs as slices, reversed Interval), resampled_n {2,3,33,100,1000,4097}, resampled_x (6 spacings), resampling twice, 13 levels, 4 scale and 3 shift pairs with round trips, one chain, NaN ordinates in 4 placements; resampled_n on 2 series whose extent overflows");
     // the real code is called under catch_unwind: keep the default hook from printing one message per caught panic
     let hook = std::panic::take_hook();
     std::panic::set_hook(Box::new(|_| {}));
@@ -498,6 +1210,19 @@ pub fn run() -> Option<Report> {
         check_nan_removal(&mut r);
         check_rounding_step_neighbours(&mut r);
         check_nonfinite_derivations(&mut r);
+        // wave 5
+        check_domains_w5(&mut r);
+        check_push_sequences(&mut r);
+        check_long_vectors(&mut r);
+        check_sort_helpers(&mut r);
+        check_linear_magnitudes(&mut r);
+        for len in 1..=4usize {
+            ascending_tuples(&XS, len, &mut |xs| {
+                tuples(&YS, len, &mut |ys| check_series_w5(&mut r, xs, ys));
+            });
+        }
+        for f in long_families().iter() { check_long_series(&mut r, f); }
+        check_resample_overflow(&mut r);
     }));
     std::panic::set_hook(hook);
     if res.is_err() { r.check(false, "the bounded check itself completes (no panic outside a guarded call)", || "see stderr".to_string()); }
